@@ -13,7 +13,7 @@ import (
 )
 
 var sqlNameAlpha = []string{"t", "users", "a", "b", "c", "a\"b", "a`b", "x\"; DROP TABLE t; --", "we ird", "q'q", "back\\slash",
-	"semi;colon", "dash--dash", " lead", "trail ", "nb\u00a0", "\tt", " t", "t ", " ", "", "growth%", "margin %d", "100%s %v", "/*c*/", "\"", "`", "\"\"", "é", "A", "col 1", "sel\"ect\"", "a\"\"b", "$1", "?",
+	"semi;colon", "dash--dash", "Sepal.Length", "a.b", ".x", "x.", "a.b.c", " lead", "trail ", "nb\u00a0", "\tt", " t", "t ", " ", "", "growth%", "margin %d", "100%s %v", "/*c*/", "\"", "`", "\"\"", "é", "A", "col 1", "sel\"ect\"", "a\"\"b", "$1", "?",
 	"abcdefghijklmnopqrstuvwxyzabcdefghijklmnopqrstuvwxyzabcdefghij\"z", "abcdefghijklmnopqrstuvwxyzabcdefghijklmnopqrstuvwxyzabcdefghijk`z"}
 
 type sqlwScenario struct {
@@ -63,6 +63,9 @@ func genSqlwScenario(r *Rng, names bool) sqlwScenario {
 			for i := range d {
 				d[i] = nil
 			}
+		}
+		if k == kInt && n > 0 && r.Chance(15) {
+			d[r.Intn(n)] = Pick(r, []any{int64(9007199254740993), uint64(18446744073709551615) >> 1, int64(-9007199254740995), int(1234567890123456789)})
 		}
 		if k == kTime && n > 0 && r.Chance(40) {
 			d[r.Intn(n)] = time.Time{} // the zero time is a value, not NULL
